@@ -448,7 +448,12 @@ class SeriesVal:
                 if skip_nulls and cur().decide(SBool(self.null(i)), "map(na_action='ignore'): element is null"):
                     memo[k] = SAny(name="nan")
                 else:
-                    memo[k] = I.call(fn, [self.at(i)])
+                    el = self.at(i)
+                    try:
+                        el.missing = SBool(self.null(i))  # the element handed to fn knows whether it is the missing value (pd.isna(el))
+                    except AttributeError:
+                        pass
+                    memo[k] = I.call(fn, [el])
             return memo[k]
 
         return self.derive(at=at, null=(lambda i: self.null(i)) if skip_nulls else (lambda i: z3.BoolVal(False)), kind="any")
@@ -922,6 +927,8 @@ def install(I):
             return v.isna()
         if v is None:
             return True
+        if getattr(v, "missing", None) is not None:
+            return v.missing  # an element taken out of a series by Series.map
         if isinstance(v, Sym):
             f = z3.Function("scalar_isna", core.U, z3.BoolSort())
             if isinstance(v, SAny):
